@@ -4,6 +4,7 @@
 package main
 
 import (
+	"strings"
 	"flag"
 	"fmt"
 	"os"
@@ -98,6 +99,10 @@ func main() {
 	rep.OpenJournal(filepath.Join(*out, "journal.txt"))
 	ctx := &Ctx{Rep: rep, Prop: *prop, Tier: *tier, Thorough: *tier == "thorough", Seed: *seed, Out: *out, Only: *only}
 	curCtx = ctx
+	if strings.HasPrefix(*only, "first-op:") {
+		// child process of runFirstOps: exactly one operation, nothing else of the property's workload
+		f = func(c *Ctx) { runFirstOpChild(c, strings.TrimPrefix(*only, "first-op:")) }
+	}
 	if pi := mon.Guard(func() { f(ctx) }); pi != nil {
 		rep.Violation(*prop+"/unguarded-panic/"+pi.Func, pi.Value, nil)
 	}
